@@ -90,6 +90,15 @@ func checkC08(c *Ctx) {
 
 	c.c08Enforcer(pm)
 	c.c08Cap(pm)
+	// a message filed in a mailbox entry that the store has dropped is listed nowhere but stays
+	// on the enforcer's books for ever (decided by C07's entries-persist rule): the account
+	// then holds bytes no removal will release
+	nEP := c.borrow(func(c2 *Ctx) {
+		if sm := c2.stores(); sm.ok {
+			c2.c07Mem(sm)
+		}
+	}, "C07/ID/monotone/mem.Store.boxes:entries-persist", "C08/ACCOUNT/entries-persist", "memory store: mailbox entries are never deleted or replaced, so every accounted message stays reachable for the removal that releases its bytes")
+	r.Floor("C08/ACCOUNT/entries-persist", "borrowed obligations", nEP, 1)
 	// the newest message must survive its own delivery's cap eviction (decided by C11's
 	// ordering rule for AddMessage)
 	nB := c.borrow(func(c2 *Ctx) {
@@ -580,15 +589,45 @@ func (c *Ctx) c08PendingRemoval(pm *pairModel, F []*ssa.Function, pushBack []*ss
 		return
 	}
 	// the registration is skipped for a marked message
-	guarded := false
 	pb := pushBack[0]
-	for _, b := range pb.Parent().Blocks {
-		for k := 0; k < len(b.Succs) && len(b.Succs) == 2; k++ {
-			v, pol, ok := eng.CondTruth(b, k)
-			if ok && !pol && eng.SameField(eng.LoadedField(v), mark) && eng.EdgeDominates(b, k, pb.Block()) {
-				guarded = true
+	underUnmarked := func(at ssa.Instruction) bool {
+		for _, b := range at.Parent().Blocks {
+			for k := 0; k < len(b.Succs) && len(b.Succs) == 2; k++ {
+				v, pol, ok := eng.CondTruth(b, k)
+				if ok && !pol && eng.SameField(eng.LoadedField(v), mark) && eng.EdgeDominates(b, k, at.Block()) {
+					return true
+				}
 			}
 		}
+		return false
+	}
+	guarded := underUnmarked(pb)
+	if !guarded && pb.Parent() != E {
+		// the registration sits in a helper or function literal of the enforcer (track(m)): the
+		// test is made where that is called
+		nCalls, nGuarded := 0, 0
+		for _, fn := range F {
+			eng.EachInstr(fn, func(in ssa.Instruction) {
+				call, ok := in.(*ssa.Call)
+				if !ok || call.Call.IsInvoke() {
+					return
+				}
+				g := eng.StaticCallee(call.Common())
+				if g == nil {
+					if fv, _, isFn := eng.FuncValueOf(eng.ResolveLocalLoad(call.Call.Value)); isFn {
+						g = fv
+					}
+				}
+				if g != pb.Parent() {
+					return
+				}
+				nCalls++
+				if underUnmarked(in) {
+					nGuarded++
+				}
+			})
+		}
+		guarded = nCalls > 0 && nCalls == nGuarded
 	}
 	if guarded {
 		r.Ok("C08/ENFORCER/shape", cons, p.InstrPos(markSite), "a removal that overtakes its delivery marks the message (%s), and the delivery arm registers only unmarked messages", mark.Name())
@@ -620,9 +659,21 @@ func (c *Ctx) c08Rendezvous(pm *pairModel) {
 			f := eng.LoadedField(ch)
 			isReq := eng.SameField(f, pm.fRemove) || eng.SameField(f, pm.fIncoming)
 			if !isReq {
-				// the shared helper's own parameter (submit(c enforcerChan, …))
-				if prm, isP := eng.StripConv(sd.Chan).(*ssa.Parameter); isP && pm.enforcerVia == prm.Parent() {
-					isReq = true
+				// the shared helper's own parameter (submit(c enforcerChan, …), enforcerSend(ch, m)):
+				// every caller passes one of the two request channels
+				if prm, isP := eng.StripConv(sd.Chan).(*ssa.Parameter); isP {
+					if pm.enforcerVia == prm.Parent() {
+						isReq = true
+					} else if vals, ok := p.ActualsOf(prm); ok && len(vals) > 0 {
+						all := true
+						for _, a := range vals {
+							af := eng.LoadedField(eng.StripConv(a))
+							if !eng.SameField(af, pm.fRemove) && !eng.SameField(af, pm.fIncoming) {
+								all = false
+							}
+						}
+						isReq = all
+					}
 				}
 			}
 			if !isReq {
@@ -630,9 +681,21 @@ func (c *Ctx) c08Rendezvous(pm *pairModel) {
 			}
 			n++
 			cons := siteCons(p, in, ord, "rendezvous")
-			waits := func(x ssa.Instruction) bool {
+			isRecv := func(x ssa.Instruction) bool {
 				u, ok := x.(*ssa.UnOp)
 				return ok && u.Op == token.ARROW
+			}
+			waits := func(x ssa.Instruction) bool {
+				if isRecv(x) {
+					return true
+				}
+				// a helper every path of which waits (md.wait())
+				if call, ok := x.(*ssa.Call); ok {
+					if g := eng.StaticCallee(call.Common()); g != nil && eng.FuncPkgPath(g) == eng.Mod+"/pkg/storage/mem" && len(g.Blocks) > 0 {
+						return (&eng.Search{Target: eng.IsReturnOf(g), Avoid: isRecv}).FromEntry(g) == nil
+					}
+				}
+				return false
 			}
 			if ret := (&eng.Search{Target: eng.IsReturnOf(fn), Avoid: waits}).After(in); ret != nil {
 				r.Bad("C08/PAIR/rendezvous", cons, p.InstrPos(in), "%s hands a notice to the size enforcer and can return at %s without waiting for it to be processed: a removal notice and the delivery notice that follows it travel on two channels, so the enforcer may see the delivery first, count both messages and evict a live one", shortFn(fn), p.InstrPos(ret))
